@@ -19,7 +19,10 @@ def run(case):
     from clastic.middleware.cookie import SignedCookieMiddleware
     from werkzeug.test import Client
     secrets = {'secret_token': 'S3CR3T-A', 'db_secret': b'S3CR3T-B', 'my_secret_thing': Loud('S3CR3T-C'),
-               'SECRET_upper': 'S3CR3T-D-not-matched-by-lowercase-rule'}
+               'SECRET_upper': 'S3CR3T-D-not-matched-by-lowercase-rule',
+               # "contains secret", however it is glued to the rest of the name
+               'dbsecret': 'S3CR3T-E', 'secretkey': 'S3CR3T-F', 'api_secrets': 'S3CR3T-G', 'client-secret': 'S3CR3T-H',
+               'xsecretx': 'S3CR3T-I', 'secret': 'S3CR3T-J'}
     plain = {'visible_name': 'VISIBLE-VALUE', 'number': 42}
     res = dict(secrets)
     res.update(plain)
